@@ -1,6 +1,7 @@
 """Shared engine for C07 (writer conformance) and C08 (append preserves history): seeded session histories
 w(M0,F0) a(M1,F1) ... a(Mk,Fk) on a simulated device; after every close() the durable image is examined by
 py7zr's reader, by the strict reference reader, and against the reference model."""
+import json
 import os
 
 from simkit import driver, gen, rw, tree
@@ -18,6 +19,9 @@ FIXTURE_BASES = [
     ("deflate64.7z", None), ("lzma2bcj.7z", None), ("p7zip-zstd.7z", None), ("read_reset.7z", None), ("test_2.7z", None),
     ("lzma2delta_1.7z", None), ("lzma_1.7z", None), ("copy_bcj_1.7z", None), ("empty.7z", None), ("encrypted_1.7z", "secret"),
     ("encrypted_3.7z", "secret"), ("extra_payload_data.7z", None),
+    # folders neither py7zr nor the reference reader can decode (7-Zip's four-input BCJ2 coder): appending to them must
+    # hand every descriptor back unchanged - compared structurally, nothing is decoded
+    ("lzma_bcj2_1.7z", None), ("test_lzma2bcj2.7z", None),
 ]
 
 
@@ -91,6 +95,10 @@ def gen_history(rng: Rng, tier: str, kmax=3, allow_fixture=True, allow_real_sour
             "rng": r.randrange(1 << 30), "read": read}
 
 
+UNDECODABLE_BASES = ("lzma_bcj2_1.7z", "test_lzma2bcj2.7z")
+DECODABLE_FIXTURE_BASES = [x for x in FIXTURE_BASES if x[0] not in UNDECODABLE_BASES]
+
+
 def _no_drive(name):
     """write()/writeall() strip a leading drive prefix and separators from arcname by design (C16); keep such names
     out of these ops so the model needs no copy of that rule."""
@@ -101,7 +109,7 @@ def _no_drive(name):
     return name
 
 
-def _py7zr_view(image, password, read_knobs):
+def _py7zr_view(image, password, read_knobs, names_only=False):
     """(names, products, meta) through py7zr, or the exception."""
     py7zr = import_py7zr()
     from simkit.device import SimRaw
@@ -116,11 +124,17 @@ def _py7zr_view(image, password, read_knobs):
             for f in z.files:
                 lw = f.lastwritetime
                 meta.append((f.filename, int(lw) if lw is not None else None, f._file_info.get("attributes"), bool(f.is_directory), f.uncompressed, f.crc32))
+            if names_only:
+                return names, None, meta
             fac = rw.make_factory()
             z.extractall(factory=fac)
             return names, fac.result(), meta
         finally:
             z.close()
+
+
+def _folder_desc(f):
+    return json.dumps([[(c["id"].hex(), c["numin"], c["numout"], (c["props"] or b"").hex()) for c in f["coders"]], f["bind"], f["packed"], f["unpacksizes"], f.get("crc")], sort_keys=True)
 
 
 def run_history(case, want_c07=True, want_c08=True):
@@ -132,6 +146,8 @@ def run_history(case, want_c07=True, want_c08=True):
     password = None
     model = []  # rw.Mem entries with observed metadata baseline filled in lazily
     baseline = {}  # index -> (mtime, attrs) as first observed
+    structural = None  # folder descriptors of a base archive that holds undecodable folders
+    base_sizes = []
     log = []
     base_kind = "py7zr"
     try:
@@ -164,6 +180,9 @@ def run_history(case, want_c07=True, want_c08=True):
                 kind = m.kind
                 model.append(rw.Mem(m.name, m.data, kind, m.mtime, m.attributes))
                 baseline[len(model) - 1] = (m.mtime, m.attributes)
+            if a.undecoded:
+                structural = [_folder_desc(f) for f in a.main["folders"]]
+                base_sizes = [m.size for m in a.members]
         chains = []
         for si, sess in enumerate(case["sessions"]):
             if sess.get("password") is not None:
@@ -196,7 +215,7 @@ def run_history(case, want_c07=True, want_c08=True):
             image = fs.get(rw.SIM_PATH).snapshot()
             res["evals"] += 1
             want_names = [m.name for m in model]
-            want_data = {m.name: m.data for m in model if m.kind != "dir"}
+            want_data = {m.name: m.data for m in model if m.kind != "dir" and m.data is not None}
             # ---------------- reference reader (C07 strict, C08 content) ----------------
             a = None
             try:
@@ -211,7 +230,22 @@ def run_history(case, want_c07=True, want_c08=True):
                 for l in a.lint:
                     key = l.split(" ")[0] + " " + " ".join(l.split(" ")[1:4]) if not l[0].isdigit() else " ".join(l.split(" ")[1:5])
                     res["lint"][key] = res["lint"].get(key, 0) + 1
-                if not a.undecoded:
+                if structural is not None:
+                    got_names = a.names()
+                    if got_names != want_names:
+                        viol("C08", "members_differ", "ref7z", "after session %d reference reader lists %r, model %r" % (si, got_names[:8], want_names[:8]))
+                    now = [_folder_desc(f) for f in (a.main["folders"] if a.main else [])][:len(structural)]
+                    if now != structural:
+                        k = next((k for k in range(len(structural)) if k >= len(now) or now[k] != structural[k]), 0)
+                        viol("C08", "folder_descriptor_changed", "ref7z", "after session %d folder %d of the base archive is described as %s, it was %s" % (
+                            si, k, now[k][:200] if k < len(now) else None, structural[k][:200]))
+                    if [m.size for m in a.members][:len(base_sizes)] != base_sizes:
+                        viol("C08", "metadata_changed", "ref7z", "after session %d the sizes of the base archive's members changed" % si)
+                    for i, m in enumerate(a.members[:len(base_sizes)]):
+                        if i in baseline and (m.mtime, m.attributes) != baseline[i]:
+                            viol("C08", "metadata_changed", "ref7z", "member %d %r: (mtime, attributes) was %r, after session %d it is %r" % (i, m.name, baseline[i], si, (m.mtime, m.attributes)))
+                            break
+                elif not a.undecoded:
                     got_names = a.names()
                     if got_names != want_names:
                         viol("C07", "members_differ", "ref7z", "reference reader lists %r, model %r" % (got_names[:8], want_names[:8]))
@@ -247,14 +281,14 @@ def run_history(case, want_c07=True, want_c08=True):
                     budget = rw.read_budget(len(image), sum(len(d) for d in want_data.values()))
                     try:
                         with StepCounter(budget) as sc:
-                            names, products, meta = _py7zr_view(image, password, case["read"])
+                            names, products, meta = _py7zr_view(image, password, case["read"], names_only=structural is not None)
                         res["sim_steps"] = res.get("sim_steps", 0) + sc.steps
                     except StepBudgetExceeded:
                         viol("C08", "call_never_returns", "py7zr", "reading the image after session %d exceeded %d steps (spin)" % (si, budget))
                         break
                     if names != want_names:
                         viol("C08", "members_differ", "py7zr", "after session %d py7zr lists %r, model %r" % (si, names[:8], want_names[:8]))
-                    elif products != want_data:
+                    elif structural is None and products != want_data:
                         bad = [n for n in want_data if products.get(n) != want_data[n]]
                         extra_ = [n for n in products if n not in want_data]
                         idx = want_names.index(bad[0]) if bad else -1
